@@ -73,6 +73,7 @@ class Block:
         self.exit = []
         self.tailfrom = None
         self.tailafter = False
+        self.selectarm = None
         self.addparams = []
         self.loopstart = {}
         self.loopend = {}       # anchors of statements to drop (logged)
@@ -175,6 +176,8 @@ def parse_template(path):
         elif word == 'tailafter':
             cur.tailfrom = BT.findall(rest)[0]
             cur.tailafter = True
+        elif word == 'selectarm':
+            cur.selectarm = BT.findall(rest)[0]
         elif word == 'addparam':
             cur.addparams.append(rest.strip())
         elif word == 'stmt':
@@ -459,6 +462,42 @@ def extract_fn(repo, blk, meta, mode):
             raise X.LostAnchor('%s::%s: tail anchor `%s` not found among the top-level statements' % (rel, kv['name'], blk.tailfrom))
         log.append(('R32', 'only the tail from `%s` is verified: %d top-level statement(s) before it dropped; their locals enter as parameters: %s' % (blk.tailfrom, starts.index(cut), '; '.join(blk.addparams)), src_line))
         body = [body[0]] + body[cut:]
+    if blk.selectarm:
+        # R33: ONE arm of a `tokio::select!` of the function is verified: `<pattern> = <future> [, if <guard>] => { body }`. The arm body becomes the
+        # function body (the pattern variable and the locals it touches enter as parameters: `addparam`), and the arm's guard -- `true` when it has
+        # none -- is evaluated AFTER the body as the second component of the result: "is this branch still enabled once it has run?"
+        atoks = [t.text for t in lex(blk.selectarm) if t.kind not in ('ws', 'comment')]
+        sidx = [i for i in range(len(body)) if body[i].kind not in ('ws', 'comment')]
+        hit = None
+        for a in range(len(sidx) - len(atoks) + 1):
+            if all(body[sidx[a + q]].text == atoks[q] for q in range(len(atoks))):
+                hit = a
+                break
+        if hit is None:
+            raise X.LostAnchor('%s::%s: select arm `%s` not found' % (rel, kv['name'], blk.selectarm))
+        q = hit + len(atoks)
+        guard = 'true'
+        if body[sidx[q]].text == ',' and body[sidx[q + 1]].text == 'if':
+            g0 = q + 2
+            g1 = g0
+            depth = 0
+            while not (depth == 0 and body[sidx[g1]].text == '=' and body[sidx[g1 + 1]].text == '>'):
+                if body[sidx[g1]].text in '([{':
+                    depth += 1
+                elif body[sidx[g1]].text in ')]}':
+                    depth -= 1
+                g1 += 1
+            guard = text(body[sidx[g0]:sidx[g1]]).strip()
+            q = g1
+        if not (body[sidx[q]].text == '=' and body[sidx[q + 1]].text == '>' and body[sidx[q + 2]].text == '{'):
+            raise X.LostAnchor('%s::%s: select arm `%s`: cannot parse `[, if guard] => { body }`' % (rel, kv['name'], blk.selectarm))
+        b0 = sidx[q + 2]
+        b1 = match_close(body, b0)
+        arm_line = body[b0].line
+        log.append(('R33', 'only the select! arm `%s` is verified; its guard `%s` is re-evaluated after the arm body as the second result; locals enter as parameters: %s' % (blk.selectarm, guard, '; '.join(blk.addparams)), src_line))
+        pre = [Tok(u.kind, u.text, 0, arm_line) for u in lex('{ let __arm_result = ')]
+        post = [Tok(u.kind, u.text, 0, body[b1].line) for u in lex('; let __enabled_after: bool = %s; (__arm_result, __enabled_after) }' % guard)]
+        body = pre + body[b0:b1 + 1] + post
     loops = X.find_loops(body, 1, len(body) - 1)
     inserts = {}   # token index in body -> list of (text, origin) inserted BEFORE that token
 
